@@ -251,7 +251,7 @@ pub static PROPS: &[Prop] = &[
     },
     Prop {
         id: "C19",
-        level: "fault_enumeration",
+        level: "exploration",
         parts: &[
             Part { scenario: "sockopt", quick_runs: 20_000, thorough_runs: 300_000, classes: &["setsockopt-failed", "limit-stale", "close-failed", "hook-call-lost", "crash", "count-wrong", "deadlock"] },
             Part { scenario: "sockio", quick_runs: 10_000, thorough_runs: 200_000, classes: &["socket-timeout"] },
